@@ -128,6 +128,7 @@ def run_s(rep, items, tier, kinds=None, wall_budget_s=None):
         "typing_queries": agg.get("typing_queries"),
         "path_witnesses_run_on_the_real_interpreter": agg.get("witnesses"),
         "heap_ledger_audits": agg.get("ledger_audits"),
+        "witnesses_compared_dev_vs_release_and_reversed_history": agg.get("profile_history_pairs"),
         "solver_queries": agg.get("queries"),
         "second_solver_cross_check": xc,
         "solver_s": round(agg.get("solver_s", 0.0), 1),
@@ -290,6 +291,12 @@ def limit_programs():
         ("limit:native-stack:parentheses-100k", "(" * 100000 + "1" + ")" * 100000),
         ("limit:native-stack:operator-chain-100k", "1" + "+1" * 100000),
         ("limit:native-stack:blocks-20k", "als ja { " * 20000 + "1" + " }" * 20000),
+        # run-time data nested deeper than the native stack takes: the recursive mark phase, print and the hand-over of the result
+        ("limit:native-stack:data-100k-collect", "functie noop() { 0 }; stel a = []; stel i = 0; zolang i < 100000 { a = [a]; i += 1 }; noop(); lengte(a)"),
+        ("limit:native-stack:data-100k-print", "stel a = []; stel i = 0; zolang i < 100000 { a = [a]; i += 1 }; print(a); 1"),
+        ("limit:native-stack:data-100k-result", "stel a = []; stel i = 0; zolang i < 100000 { a = [a]; i += 1 }; a"),
+        # ... and data that is merely large, not deep, is fine
+        ("limit:wide-data-100k", "stel a = []; stel i = 0; zolang i < 300 { a = [a, i, 0.5, \"s\"]; i += 1 }; lengte(a)"),
     ]
 
 
